@@ -4,7 +4,7 @@ from common import Ctx, RULES
 from legs import run_classified_leg
 
 PID = "C03"
-COQ_FILES = ["Model/Base.v", "Model/Step.v", "Proofs/StepProofs.v", "Properties/C03.v"]
+COQ_FILES = ["Model/Base.v", "Model/Step.v", "Proofs/StepProofs.v", "Gen/Step.v", "Ties/StepTie.v", "Properties/C03.v"]
 RULES[PID] = ("e2e leg: seeded generated Rust programs (straight-line, branches, loops, the recursive rec_sum, generics, closures) plus one fixed program with "
               "directed histories (finish / next / step at recursion depth 0-3, next with a user breakpoint on the next line, stepi / step / next / finish "
               "through the instruction that ends the process, stepi on `loop {}` under a watchdog). Ground truth: the harness's own ptrace single-stepper "
